@@ -296,6 +296,9 @@ func (w *World) Exec(op *Op) sched.Outcome {
 				return ErrSkipped
 			}
 			signer = keyOrActor(op.EntryKey, a)
+			if op.Base != "" && !op.NoMove {
+				w.St.SetRef(op.Ref, target) // the propagated commit becomes the branch tip
+			}
 			return RecordPropagation(a.H, op.Ref, target, op.Upstream, "1111111111111111111111111111111111111111", op.EntryKey)
 		case "autoskip":
 			signer = a.Key
